@@ -270,6 +270,9 @@ namespace wc
             { "Content-Encoding", "deflate", [](RB& b) { b.header<Http::Header::ContentEncoding>(Http::Header::Encoding::Deflate); } },
             { "Expect", "100-continue", [](RB& b) { b.header<Http::Header::Expect>(Http::Expectation::Continue); } },
             { "Access-Control-Allow-Headers", "X-a, X-b", [](RB& b) { b.header<Http::Header::AccessControlAllowHeaders>("X-a, X-b"); } },
+            // a header the client also writes by itself: the caller's value must be the one (and only one) that arrives.
+            // (User-Agent is not in the alphabet: Client::doRequest deliberately replaces a caller-set User-Agent)
+            { "Host", "api.example.com:8443", [](RB& b) { b.header<Http::Header::Host>("api.example.com", Port(8443)); } },
         };
         return v;
     }
